@@ -276,6 +276,103 @@ fn primary_class<'a>(strings: impl Iterator<Item = &'a String>) -> &'static str 
     best.map_or("no-string-cause", |i| CLASS_ORDER[i])
 }
 
+/// Part C: `serverGraphqlOutput` through the real CLI with every order of the built-in plugins. The
+/// model plugin's `@model` (definition and applications) is nitrogql-only and must be stripped,
+/// whatever else is configured; everything else must re-parse to the schema.
+fn part_c_plugins(rep: &Reporter) -> J {
+    use crate::cli::{self, Project};
+    let plugin_lists: [&[&str]; 5] = [&[], &["nitrogql:model-plugin"], &["nitrogql:graphql-scalars-plugin"], &["nitrogql:model-plugin", "nitrogql:graphql-scalars-plugin"], &["nitrogql:graphql-scalars-plugin", "nitrogql:model-plugin"]];
+    let mut runs = 0u64;
+    for plugins in plugin_lists {
+        let has_model = plugins.contains(&"nitrogql:model-plugin");
+        for with_model_use in [false, true] {
+            if with_model_use && !has_model {
+                continue;
+            }
+            let mut doc = c05::base();
+            if with_model_use {
+                // @model on two fields of one object type, and @model(type:) on another object type
+                let post = doc.defs.iter_mut().find(|d| d.name_str() == "Post" && !d.ext).unwrap();
+                post.fields[0].dirs.push(dir("model", vec![]));
+                post.fields[1].dirs.push(dir("model", vec![]));
+                let user = doc.defs.iter_mut().find(|d| d.name_str() == "User" && !d.ext).unwrap();
+                user.dirs.push(dir("model", vec![("type", Value::Str(P::default(), "import('x').U".into()))]));
+            }
+            let schema_text = ts_text(&doc);
+            let mut y = String::from("schema: ./schema.graphql\ndocuments: ./ops/*.graphql\nextensions:\n  nitrogql:\n");
+            if !plugins.is_empty() {
+                y.push_str("    plugins:\n");
+                for p in plugins {
+                    y.push_str(&format!("      - \"{p}\"\n"));
+                }
+            }
+            y.push_str("    generate:\n      schemaOutput: ./g/schema.d.ts\n      resolversOutput: ./g/resolvers.d.ts\n      serverGraphqlOutput: ./g/server.ts\n      type:\n        scalarTypes:\n          Version: string\n");
+            let mut p = Project::default();
+            p.files.insert("schema.graphql".into(), schema_text.clone());
+            p.files.insert("ops/q.graphql".into(), "query Q { kind }\n".into());
+            p.files.insert("graphql.config.yaml".into(), y.clone());
+            let dirp = cli::thread_dir("c16");
+            cli::materialize(&dirp, &p);
+            let args: Vec<String> = ["--config-file", "graphql.config.yaml", "--output-format", "json", "generate"].iter().map(|s| s.to_string()).collect();
+            let r = cli::run(&dirp, &args, &[], Duration::from_secs(30));
+            runs += 1;
+            let case = |extra: J| json!({"part": "C", "plugins": plugins, "model_directive_used": with_model_use, "files": [schema_text], "config": y, "detail": extra});
+            if r.code != Some(0) {
+                rep.report(Violation { key: "plugins.generate_fails".into(), what: format!("generate exits with {:?} on a valid project with plugins {plugins:?}", r.code), case: case(json!({"stdout": r.stdout, "stderr": r.stderr})) });
+                continue;
+            }
+            let module = r.after.get("g/server.ts").map(|b| String::from_utf8_lossy(b).to_string()).unwrap_or_default();
+            let sdl = parse_module(&module).ok().and_then(|decls| decls.iter().find_map(|d| match d {
+                Decl::Const { name, init_tpl: Some(t), exported: true, .. } if name == "schema" => Some(t.clone()),
+                _ => None,
+            })).ok_or("no schema export".to_string()).and_then(|raw| eval_template(&raw));
+            let re = match sdl.as_ref().map_err(|e| e.clone()).and_then(|s| parse_ts(s)) {
+                Ok(d) => d,
+                Err(e) => {
+                    rep.report(Violation { key: "plugins.server_schema_unreadable".into(), what: e, case: case(json!({"module": module})) });
+                    continue;
+                }
+            };
+            let leaks = re.defs.iter().any(|d| (d.kind == TsKind::Directive && d.name_str() == "model") || d.dirs.iter().any(|x| x.name.s == "model") || d.fields.iter().any(|f| f.dirs.iter().any(|x| x.name.s == "model")));
+            if leaks {
+                rep.report(Violation { key: format!("plugins.model_directive_leaks[{}]", plugins.join("+")), what: format!("@model (definition or application) is present in the server schema written with plugins {plugins:?}"), case: case(json!({"sdl": sdl.clone().unwrap_or_default()})) });
+            }
+            // everything else: the schema itself
+            let mut want_doc = doc.clone();
+            for d in want_doc.defs.iter_mut() {
+                d.dirs.retain(|x| x.name.s != "model");
+                for f in d.fields.iter_mut() {
+                    f.dirs.retain(|x| x.name.s != "model");
+                }
+            }
+            let want = merge_extensions(&want_doc).map(strip).unwrap_or_default();
+            let mut got_defs = re.defs.clone();
+            got_defs.retain(|d| !(d.kind == TsKind::Directive && d.name_str() == "model"));
+            for d in got_defs.iter_mut() {
+                d.dirs.retain(|x| x.name.s != "model");
+                for f in d.fields.iter_mut() {
+                    f.dirs.retain(|x| x.name.s != "model");
+                }
+            }
+            let got = strip(got_defs);
+            for (k, w) in &want {
+                match got.get(k) {
+                    None => rep.report(Violation { key: format!("plugins.definition_lost:{}", k.0.kw()), what: format!("{} {} is missing from the server schema (plugins {plugins:?})", k.0.kw(), k.1), case: case(json!({})) }),
+                    Some(g) if g != w => rep.report(Violation { key: format!("plugins.definition_differs:{}", k.0.kw()), what: format!("{} {} differs at {}", k.0.kw(), k.1, first_diff_path(w, g)), case: case(json!({})) }),
+                    _ => {}
+                }
+            }
+            for k in got.keys() {
+                if !want.contains_key(k) {
+                    rep.report(Violation { key: format!("plugins.definition_invented:{}", k.0.kw()), what: format!("{} {} appears in the server schema but not in the schema", k.0.kw(), k.1), case: case(json!({})) });
+                }
+            }
+        }
+    }
+    cli::cleanup("c16");
+    json!({"cli_runs": runs, "plugin_orders": plugin_lists.len()})
+}
+
 pub fn run(args: &RunArgs) -> i32 {
     let rep = Reporter::new("C16", &args.tier);
     crate::util::install_hook();
@@ -389,6 +486,8 @@ pub fn run(args: &RunArgs) -> i32 {
             }
         }
     });
+    // ---------------- part C: the server schema written by the real CLI with plugins configured
+    let part_c = part_c_plugins(&rep);
     // ---------------- part B: print/parse round trip on C07's documents
     let mut per_base = serde_json::Map::new();
     let plan: Vec<(Base, usize, u64)> = if args.quick() { vec![(Base::ExecRich, 1, 20), (Base::ExecMin, 4, 30), (Base::TsRich, 1, 20), (Base::TsMin, 4, 30)] } else { vec![(Base::ExecRich, 2, 900), (Base::ExecMin, 5, 900), (Base::TsRich, 2, 900), (Base::TsMin, 5, 900)] };
@@ -482,6 +581,7 @@ pub fn run(args: &RunArgs) -> i32 {
         "distinct_nontrivial": checked.load(Ordering::Relaxed) + roundtrips.load(Ordering::Relaxed),
         "rule": "part A: E1 schema variations with hostile strings at <= 2 sites, distinct by schema text, non-trivial = checked schema whose emitted module was evaluated and compared; part B: C07's E1 documents, distinct by text, non-trivial = print/parse round trip executed",
         "exhaustive": true,
+        "part_c_server_schema_through_the_cli_with_plugins": part_c,
         "part_a": {"explorer": stats_json(&stats_a), "schemas_compared": checked.load(Ordering::Relaxed), "skipped": *skipped.lock().unwrap(), "hostile_alphabet": HOSTILE.iter().map(|h| h.0).collect::<Vec<_>>()},
         "part_b": {"round_trips": roundtrips.load(Ordering::Relaxed), "per_base": per_base},
         "samples": [sample.lock().unwrap().clone().unwrap_or(J::Null)],
